@@ -244,6 +244,36 @@ func checkC14Bundle(pc *gen.ProgCase) Verdict {
 			return bad(true, "template %s is not defined as a function under its qualified name (typeof = %s)\n%s", fqs[i], ty, showSources(names, srcs))
 		}
 	}
+	// one Generator object for the whole bundle, every file written twice: each script, loaded alone,
+	// still defines the templates of its file
+	gnr := soyjs.NewGenerator(cb.reg)
+	for round := 0; round < 2; round++ {
+		for fi, f := range cb.reg.SoyFiles {
+			var buf bytes.Buffer
+			var werr error
+			if pn := catch(func() { werr = gnr.WriteFile(&buf, f.Name) }); pn != nil || werr != nil {
+				return bad(true, "Generator.WriteFile(%s) failed in round %d: %v %v\n%s", f.Name, round, werr, pn, showSources(names, srcs))
+			}
+			var own []string
+			if fi < len(pc.Prog.Files) {
+				for _, t := range pc.Prog.Files[fi].Templates {
+					own = append(own, pc.Prog.Files[fi].Namespace+"."+t.Name)
+				}
+			}
+			r1, err := theNode.do(jsRequest{Files: []jsFile{{Name: f.Name + ".js", Src: buf.String()}}, Typeofs: own})
+			if err != nil {
+				return excluded("infra: " + err.Error())
+			}
+			if r1.Load[0] != nil {
+				return bad(true, "the script Generator.WriteFile wrote for %s (round %d, same Generator for every file) does not load on its own: %s\n%s", f.Name, round, *r1.Load[0], trunc(buf.String(), 2000))
+			}
+			for i, ty := range r1.Typeofs {
+				if ty != "function" {
+					return bad(true, "the script Generator.WriteFile wrote for %s (round %d) does not define %s when loaded on its own (typeof = %s)\n%s", f.Name, round, own[i], ty, trunc(buf.String(), 2000))
+				}
+			}
+		}
+	}
 	// under the ES6 formatter: every template exported exactly once, and nothing both imported and declared
 	for _, f := range all {
 		if !f.Module {
